@@ -20,6 +20,15 @@ def impl_eval(case):
     codec, hexbm = case['codec'], bool(case['hex'])
     o1, data, ex = iu.obs_dumps(lambda: iso8583.dumps(dict(msg), encoding=codec, iso_config=cfg, hex_bitmap=hexbm))
     why = None
+    if case.get('pdsoverflow'):
+        # more PDS data than the configured carriers can hold: emitting a message that silently lacks some of it is
+        # worse than a malformed prefix — whatever is returned must still carry every sub-element
+        if data is not None:
+            back = iso8583.loads(data, encoding=codec, iso_config=cfg, hex_bitmap=hexbm)
+            lost = [k for k in msg if k.startswith('PDS') and back.get(k) != msg[k]]
+            if lost:
+                why = f'PDS data beyond the carriers\' capacity was emitted with {len(lost)} sub-elements silently dropped'
+        return {'obs': [o1, 'n/a'], 'violation': why, 'tags': ['pdsoverflow']}
     if case.get('overlong'):
         if data is not None:
             why = (f"a variable-length value longer than its prefix can count was emitted "
@@ -94,6 +103,23 @@ def explore(run, tier):
                 for n in {1, fc['field_length'] // 2, fc['field_length'] - 1}:
                     m = {'MTI': '1240', f'DE{b}': iu.text(rng, codec, n).rstrip(' ') or 'x'}
                     cases.append(c01.mk('pkg', codec, b % 2, m, {}))
+    # more PDS data than the carriers hold
+    for codec in codecs3:
+        for ents in ([(100 + i, 'x' * 992) for i in range(6)], [(i, 'y' * 490) for i in range(11)],
+                     [(i, 'z' * 300) for i in range(17)]):
+            m = {'MTI': '1240'}
+            m.update({f'PDS{t:04d}': v for t, v in ents})
+            c = c01.mk('pkg', codec, 0, m, {})
+            c['pdsoverflow'] = True
+            cases.append(c)
+    one = {'2': {'field_name': 'pan', 'field_type': 'LLVAR', 'field_length': 0},
+           '48': {'field_name': 'pds', 'field_type': 'LLLVAR', 'field_length': 0, 'field_processor': 'PDS'}}
+    for ents in ([(1, 'a' * 600), (2, 'b' * 600)], [(1, 'a' * 992), (2, '')]):
+        m = {'MTI': '1240', 'DE2': '5' * 16}
+        m.update({f'PDS{t:04d}': v for t, v in ents})
+        c = c01.mk(one, 'latin_1', 0, m, {})
+        c['pdsoverflow'] = True
+        cases.append(c)
     # numeric elements given as TEXT (what the CSV tools hand over): rendered from the value int() reads, zero padded
     for b in bits:
         fc = pkg[str(b)]
